@@ -71,13 +71,13 @@ CLAIMED["C07"] = dict(
 )
 
 CLAIMED['C03'] = dict(
-    text="Theorems (coq/Properties/C03.v) on the single-end pipeline model, for every option set, adapter set (Forall wf_padapter) and read: with actions trim/none the written read is a contiguous slice of the input read (of its reverse complement exactly when --revcomp chose it), qualities are the same slice (zero-capped only if -z, only values below the base), sequence and qualities have equal length (C03_slice, using C01's structure theorem for every applied match and the composition of rounds); every non-adapter stage is a same-slice / names-only / zero-cap-only step; mask and lowercase keep length and qualities and write N / lower case exactly outside the composed interval; retain/crop are Python slices (contiguous, qualities in step). PARTIAL: paired-end stages (-U, -Q, -L, paired revcomp swap) are not in the model yet; the exact retain/crop interval is checked by the correspondence only.",
+    text="Theorems (coq/Properties/C03.v) on the single-end pipeline model, for every option set, adapter set (Forall wf_padapter) and read: with actions trim/none the written read is a contiguous slice of the input read (of its reverse complement exactly when --revcomp chose it), qualities are the same slice (zero-capped only if -z, only values below the base), sequence and qualities have equal length (C03_slice, using C01's structure theorem for every applied match and the composition of rounds); every non-adapter stage is a same-slice / names-only / zero-cap-only step; mask and lowercase keep length and qualities and write N / lower case exactly outside the composed interval; retain/crop are Python slices (contiguous, qualities in step). Paired-end: the paired model (Model/Paired.v) applies the same stages per mate (C05_stages_per_mate) and is tied to the code by its own correspondence; the slice statement for pairs and the exact retain/crop interval are checked by correspondence + the paired slice oracle, not proved.",
     technique="Coq proof (induction over the stage list, slice composition lemmas, C01 structure theorem) + Orders translator + extracted-model system-level correspondence; slice oracle on the implementation's outputs",
     design='6/C03',
     note=TB + " System-level tie: cutadapt.cli.main run in-process on the rebuilt working tree vs the extracted pipeline model (output files, info file, JSON report counts and per-adapter statistics compared); argparse, dnaio and report formatting are not modelled; adapter objects are taken from the real parser (C18's business); --rename, wildcard/rest files and adapter indexing (runs use --no-index) are outside the pipeline model.",
 )
 CLAIMED['C04'] = dict(
-    text="Theorems (coq/Properties/C04.v) on the pipeline model's run = fold over reads: input = written + sum of all filter categories; every read has exactly one fate (written to one file xor one category); each output/redirect file is exactly the subsequence of reads routed to it, once each, in input order; every reported figure (input, bp, written, written bp, with-adapter, reverse-complemented, quality-trimmed, poly-A-trimmed, each category) is the sum over the individual reads. Genuine defect F4b repaired in /repo (66e8330). PARTIAL: paired-end accounting incl. combinatorial demultiplexing is not in the model yet; text/minimal report layouts are not modelled (the JSON counts are).",
+    text="Theorems (coq/Properties/C04.v) on the pipeline model's run = fold over reads: input = written + sum of all filter categories; every read has exactly one fate (written to one file xor one category); each output/redirect file is exactly the subsequence of reads routed to it, once each, in input order; every reported figure (input, bp, written, written bp, with-adapter, reverse-complemented, quality-trimmed, poly-A-trimmed, each category) is the sum over the individual reads. Genuine defect F4b repaired in /repo (66e8330). Pairs: C05_totals / C05_sync give the same accounting for the paired model incl. {name1}/{name2} demultiplexing (genuine defect F4a repaired in /repo, b5f4efd). Text/minimal report layouts are not modelled (the JSON counts are).",
     technique="Coq proof (induction over the read list) + extracted-model system-level correspondence; recount oracle on the implementation's files and JSON report",
     design='6/C04',
     note=TB + " System-level tie: cutadapt.cli.main run in-process on the rebuilt working tree vs the extracted pipeline model (output files, info file, JSON report counts and per-adapter statistics compared); argparse, dnaio and report formatting are not modelled; adapter objects are taken from the real parser (C18's business); --rename, wildcard/rest files and adapter indexing (runs use --no-index) are outside the pipeline model.",
@@ -89,25 +89,25 @@ CLAIMED['C09'] = dict(
     note=TB + " System-level tie: cutadapt.cli.main run in-process on the rebuilt working tree vs the extracted pipeline model (output files, info file, JSON report counts and per-adapter statistics compared); argparse, dnaio and report formatting are not modelled; adapter objects are taken from the real parser (C18's business); --rename, wildcard/rest files and adapter indexing (runs use --no-index) are outside the pipeline model.",
 )
 CLAIMED['C10'] = dict(
-    text="Theorems (coq/Properties/C10.v): the stage order regenerated from cli.py on every run equals the documented order (C10_order: a closed equality that stops compiling when two stages are swapped in the source); the chain is the left fold of the stages, each seeing the previous output; an absent option contributes no stage; the adapter stage sits between cut/NextSeq/quality and the rest. The model's option record is a set (only -u keeps order): independence of argv order is checked by running the implementation with permuted argv against the model and against the composition of single-stage implementation runs. PARTIAL: which mate each option touches (paired-end) is not in the model yet.",
+    text="Theorems (coq/Properties/C10.v): the stage order regenerated from cli.py on every run equals the documented order (C10_order: a closed equality that stops compiling when two stages are swapped in the source); the chain is the left fold of the stages, each seeing the previous output; an absent option contributes no stage; the adapter stage sits between cut/NextSeq/quality and the rest. The model's option record is a set (only -u keeps order): independence of argv order is checked by running the implementation with permuted argv against the model and against the composition of single-stage implementation runs. Which mate each option reaches is C05_sides / C05_stages_per_mate on the paired model, checked against single-end runs of each mate.",
     technique='Coq proof + fail-closed AST translator of make_pipeline_from_args (Generated/Orders.v) + extracted-model correspondence under permuted argv; stage-composition oracle on the implementation',
     design='6/C10',
     note=TB + " System-level tie: cutadapt.cli.main run in-process on the rebuilt working tree vs the extracted pipeline model (output files, info file, JSON report counts and per-adapter statistics compared); argparse, dnaio and report formatting are not modelled; adapter objects are taken from the real parser (C18's business); --rename, wildcard/rest files and adapter indexing (runs use --no-index) are outside the pipeline model.",
 )
 CLAIMED['C11'] = dict(
-    text="Theorems (coq/Properties/C11.v): the filter order regenerated from cli.py equals the documented order, text writers come before and the sink after all filters; the first filter whose predicate holds consumes the read (C11_first) and a read passes iff none holds; each integer criterion is the documented strict inequality with its redirect destination, boundary values are kept. The three float criteria (--max-n fraction, --max-ee, --max-aer) are parameters of the model; their cases are decided by the decimal oracle on the implementation (boundary-ambiguous ones skipped). PARTIAL: paired-end pair-filter modes are in C05's scope, not modelled yet.",
+    text="Theorems (coq/Properties/C11.v): the filter order regenerated from cli.py equals the documented order, text writers come before and the sink after all filters; the first filter whose predicate holds consumes the read (C11_first) and a read passes iff none holds; each integer criterion is the documented strict inequality with its redirect destination, boundary values are kept. The three float criteria (--max-n fraction, --max-ee, --max-aer) are parameters of the model; their cases are decided by the decimal oracle on the implementation (boundary-ambiguous ones skipped). Pair-filter modes: C05_mode / C05_first on the paired model.",
     technique='Coq proof + Orders translator + extracted-model system-level correspondence; criteria oracle on the implementation',
     design='6/C11',
     note=TB + " System-level tie: cutadapt.cli.main run in-process on the rebuilt working tree vs the extracted pipeline model (output files, info file, JSON report counts and per-adapter statistics compared); argparse, dnaio and report formatting are not modelled; adapter objects are taken from the real parser (C18's business); --rename, wildcard/rest files and adapter indexing (runs use --no-index) are outside the pipeline model.",
 )
 CLAIMED['C15'] = dict(
-    text='Theorems (coq/Properties/C15.v): with {name} the sink routes by the adapter of the last match / unknown / untrimmed output / discard (C15_route); without trimmed/untrimmed options every read yields the same record and is written exactly when it is written by the same command without {name} (C15_same_records, a theorem relating two runs); each file is the in-order subsequence routed to it. That a file exists for every adapter name even if empty is checked on the implementation only. PARTIAL: paired and combinatorial demultiplexing not modelled yet.',
+    text='Theorems (coq/Properties/C15.v): with {name} the sink routes by the adapter of the last match / unknown / untrimmed output / discard (C15_route); without trimmed/untrimmed options every read yields the same record and is written exactly when it is written by the same command without {name} (C15_same_records, a theorem relating two runs); each file is the in-order subsequence routed to it. That a file exists for every adapter name even if empty is checked on the implementation only. Paired and combinatorial demultiplexing are in the paired model (psink) and its correspondence; no separate theorem beyond C05_sync.',
     technique='Coq proof + extracted-model system-level correspondence; routing/multiset oracle on the implementation',
     design='6/C15',
     note=TB + " System-level tie: cutadapt.cli.main run in-process on the rebuilt working tree vs the extracted pipeline model (output files, info file, JSON report counts and per-adapter statistics compared); argparse, dnaio and report formatting are not modelled; adapter objects are taken from the real parser (C18's business); --rename, wildcard/rest files and adapter indexing (runs use --no-index) are outside the pipeline model.",
 )
 CLAIMED['C16'] = dict(
-    text='Theorems (coq/Properties/C16.v): the --revcomp stage returns the forward result unless the reverse complement has a match and a strictly higher total score, in which case it returns the trimmed reverse complement with reversed qualities, name suffix and the flag (C16_choice); ties keep the given orientation (C16_tie). Genuine defect F16 repaired in /repo (3fe341c). PARTIAL: the paired variant (R1/R2 swap) is not modelled yet; {rc} under --rename is not modelled.',
+    text='Theorems (coq/Properties/C16.v): the --revcomp stage returns the forward result unless the reverse complement has a match and a strictly higher total score, in which case it returns the trimmed reverse complement with reversed qualities, name suffix and the flag (C16_choice); ties keep the given orientation (C16_tie). Genuine defect F16 repaired in /repo (3fe341c). The paired variant (R1/R2 swap) is modelled (paired_revcomp) and checked by correspondence plus an API-level oracle; no separate theorem. {rc} under --rename is not modelled.',
     technique='Coq proof + extracted-model system-level correspondence; API-level choice oracle on the implementation',
     design='6/C16',
     note=TB + " System-level tie: cutadapt.cli.main run in-process on the rebuilt working tree vs the extracted pipeline model (output files, info file, JSON report counts and per-adapter statistics compared); argparse, dnaio and report formatting are not modelled; adapter objects are taken from the real parser (C18's business); --rename, wildcard/rest files and adapter indexing (runs use --no-index) are outside the pipeline model.",
@@ -123,6 +123,13 @@ CLAIMED['C20'] = dict(
     technique='Coq proof (fold/count lemma, loop invariant for the ranges) + extracted-model system-level correspondence of per-adapter statistics; info-file tally oracle on the implementation',
     design='6/C20',
     note=TB + " System-level tie: cutadapt.cli.main run in-process on the rebuilt working tree vs the extracted pipeline model (output files, info file, JSON report counts and per-adapter statistics compared); argparse, dnaio and report formatting are not modelled; adapter objects are taken from the real parser (C18's business); --rename, wildcard/rest files and adapter indexing (runs use --no-index) are outside the pipeline model.",
+)
+
+CLAIMED["C05"] = dict(
+    text="Theorems (coq/Properties/C05.v) on the paired pipeline model (Model/Paired.v): every pair file is exactly the pairs routed to it, both mates together, once each, in input order, so the R1 and R2 projections have equal length and record k of both comes from the same input pair (C05_sync); one fate per pair (C05_unit); the pair decision is the documented truth table for any/both/first and a one-sided LEN:/:LEN2 bound looks at that mate only (C05_mode); 'both' is forced for the untrimmed filters exactly when adapters are given for one side only (C05_override/C05_no_override); first applicable pair filter consumes the pair; --pair-adapters trims both mates by adapters of the same rank or leaves both unchanged (C05_pair_adapters); pairs in = written + filtered (C05_totals); which mate each option reaches (C05_sides, C05_stages_per_mate); interleaving round-trips. Genuine defects F3 and F4a repaired in /repo (b80768e, b5f4efd). That the two physical files both receive their record is dnaio's paired writer: exercised, not modelled.",
+    technique="Coq proof (induction over pairs/filters) + extracted-model system-level correspondence on paired option sets; zip/decision oracle on the implementation's outputs",
+    design="6/C05",
+    note=TB + " System-level tie: cutadapt.cli.main run in-process on the rebuilt working tree vs the extracted paired pipeline model; dnaio's paired/interleaved readers and writers, argparse and report formatting are not modelled; float filters (--max-ee, --max-aer, fractional --max-n) and info files are not in the paired model.",
 )
 
 NOT_YET = {}
